@@ -69,7 +69,8 @@ BOUNDS = {
              "in the noise-symbolic cases additionally 3 noise-map values in [1/4, 8]. ENUMERATED: geometry sq3 (5x5 frame, central 3x3 "
              "unmasked, asymmetric non-negative dyadic 3x3 PSF, non-uniform dyadic noise, sub-size 1); linear-object mixes [mapper], "
              "[function list, mapper], [mapper, function list], [mapper, mapper], and - with the further slots and 8 subsets of the named "
-             "slots - [G, F, mapper], [F, G, mapper], [mapper, G, mapper, F] where G / F are function lists with 3 / 2 parameters "
+             "slots - [G, F, mapper], [F, G, mapper], [mapper, G, mapper, F] where G / F are function lists with 3 / 2 parameters, and [O, mapper], [mapper, O, F] with O a function list carrying an "
+             "operated_mapping_matrix_override "
              "(3x3 / 2x2 rectangular meshes, Constant and "
              "ConstantZeroth regularization, 2-parameter MockLinearObjFuncList); both formalisms (settings.use_w_tilde True/False); all "
              "2^5 subsets of the slots {w_tilde, curvature_matrix, regularization_matrix, log_det_regularization_matrix_term, "
@@ -291,7 +292,10 @@ def _geom(name):
     # a second function list with a DIFFERENT parameter count (3): per-function column offsets / re-keying of the dict slots
     fm3 = np.full((n, 3), 0.25)
     fm3[0, 1], fm3[1, 2], fm3[2, 0], fm3[3, 1], fm3[n - 1, 0], fm3[n - 2, 2], fm3[4, 2] = 1.0, -0.75, 0.5, 1.5, -0.25, 0.75, 2.0
-    return {"mask": mask, "psf": psf, "noise": noise, "sub": sub, "mesh": mesh, "mesh2": mesh2, "func": fm, "func3": fm3, "n": n}
+    fo = np.full((n, 2), 0.75)
+    fo[0, 1], fo[1, 0], fo[2, 0], fo[3, 1], fo[n - 1, 0], fo[n - 2, 1] = 1.5, -0.25, 2.0, 0.125, 0.5, -1.0
+    return {"mask": mask, "psf": psf, "noise": noise, "sub": sub, "mesh": mesh, "mesh2": mesh2, "func": fm, "func3": fm3,
+            "func_override": fo, "n": n}
 
 
 def _dataset(g, data, noise):
@@ -337,6 +341,11 @@ def _linear_objs(g, mask, mix):
                                                       mapping_matrix=g["func"].copy()))
             elif ch == "N":     # the second mapper (other mesh, other regularization) on its own
                 out.append(_mapper(g, mask, g["mesh2"], True))
+            elif ch == "O":     # function list whose operated matrix is given directly (operated_mapping_matrix_override), NOT the
+                # convolution of its mapping matrix - e.g. a profile that is already PSF-operated
+                out.append(aa.m.MockLinearObjFuncList(parameters=2, grid=aa.Grid2D.from_mask(mask=mask),
+                                                      mapping_matrix=g["func"].copy(),
+                                                      operated_mapping_matrix_override=g["func_override"].copy()))
             elif ch == "G":
                 out.append(aa.m.MockLinearObjFuncList(parameters=3, grid=aa.Grid2D.from_mask(mask=mask),
                                                       mapping_matrix=g["func3"].copy()))
@@ -614,7 +623,7 @@ def case_seq(ctx, geom, mix, wt, subsets, k, noise_sym=False, check=False, donor
     ctx.set_inputs(**inputs)
     A, E = body_seq(inputs, **kw)
     known = None
-    if KNOWN_DVM in os.environ.get("VERIF_KNOWN", "").split(",") and not wt and ("F" in mix or "G" in mix) and "M" in mix:
+    if KNOWN_DVM in os.environ.get("VERIF_KNOWN", "").split(",") and not wt and any(c_ in mix for c_ in "FGO") and "M" in mix:
         # recorded defect: the mapping formalism returns Preloads.data_vector_mapper as the whole data vector
         known = {key: {KNOWN_DVM: z3.BoolVal(True)} for key in E
                  if "dvm" in key.split("|")[1].split("+") and key.rsplit("|", 1)[-1] in DVM_AFFECTED}
@@ -664,8 +673,9 @@ def _all_subsets():
 # clean tree the branching cases have 2-3 paths - under a fault every differing inversion adds a fork, hence the path cap
 TABLE_STEPS = ((("M", "d"), ("M", "e"), ("M", "d")),                 # data differ, back and forth
                (("M", "d"), ("N", "d"), ("FM", "e"), ("M", "d")))     # mappers / mixes differ on the same tables, then data too
+TABLE_STEPS = TABLE_STEPS + ((("OM", "d"), ("MO", "e"), ("OM", "e")),)
 TABLE_STEPS_MORE = ((("N", "e"), ("M", "e"), ("MGMF", "d")), (("FM", "d"), ("FM", "e")), (("MM", "e"), ("MF", "d"), ("MM", "d")))
-HETERO_MIXES = ("GFM", "FGM", "MGMF")
+HETERO_MIXES = ("GFM", "FGM", "MGMF", "OM", "MOF")       # O: function list with an operated_mapping_matrix_override
 HETERO_CORE = ((), ("curvature_matrix",), ("regularization_matrix",), ("operated_mapping_matrix",), ("w_tilde", "operated_mapping_matrix"),
                ("regularization_matrix", "log_det_regularization_matrix_term"), ("curvature_matrix", "operated_mapping_matrix"), SLOTS)
 SLOW = {"timeout_ms": 12000, "max_paths": 24}
@@ -729,8 +739,7 @@ def cases(tier):
                         out.append(("case_seq", {"geom": geom, "mix": mix, "wt": wt, "subsets": ext[i:i + chunk], "k": k}))
                     for i in range(0, len(subs), 16):
                         out.append(("case_seq", {"geom": geom, "mix": mix, "wt": wt, "subsets": subs[i:i + 16], "k": k}))
-            if not quick:
-                out.append(("case_factory", {"geom": geom, "mix": mix}))
+            out.append(("case_factory", {"geom": geom, "mix": mix}))
     return out
 
 
